@@ -44,7 +44,10 @@ PROFILE = gf.make_profile(
     dep_index=70, perfect_nest=25, helpers=(0, 1), nstmts=(2, 5),
     array_intrinsics=False, functions=False, array_only_loops=35)
 PROFILE_NAMES = gf.make_profile(
-    kinds=dict(PROFILE["kinds"]), dep_index=70, perfect_nest=25,
+    kinds=dict(PROFILE["kinds"], **{"do": 20, "dep_pair": 12, "if": 1,
+                                    "if1": 1, "assign_scalar": 3,
+                                    "assign_elem": 6}),
+    dep_index=70, perfect_nest=25,
     helpers=(0, 0), nstmts=(2, 4), array_intrinsics=False, functions=False,
     array_only_loops=50,
     extra_int_scalars=("d_i", "d1_i", "d_j", "d_l"))
